@@ -74,6 +74,9 @@ def net_loop():
     pp.create_pipe_from_parameters(net, j[0], j[1], 0.2, 60, u_w_per_m2k=10, sections=2)
     pp.create_heat_consumer(net, j[1], j[2], qext_w=20000, controlled_mdot_kg_per_s=0.5)
     pp.create_heat_consumer(net, j[1], j[2], controlled_mdot_kg_per_s=0.2, deltat_k=12.0)
+    # heat-defined consumers (mass flow follows from the demand): their controlled_mdot_kg_per_s is NaN in the user's table
+    pp.create_heat_consumer(net, j[1], j[2], qext_w=8000, deltat_k=15.0, index=7)
+    pp.create_heat_consumer(net, j[1], j[2], qext_w=6000, treturn_k=335.0, index=4)
     pp.create_pipe_from_parameters(net, j[2], j[3], 0.2, 60, u_w_per_m2k=10)
     return net
 
@@ -101,16 +104,17 @@ EDITS = {
     "edit_sink": ("sink", "mdot_kg_per_s", lambda v: v * 3.0), "edit_d": ("pipe", "inner_diameter_mm", lambda v: v * 0.8),
     "edit_ins": ("pipe", "in_service", lambda v: ~v), "edit_pn": ("junction", "pn_bar", lambda v: v * 2.0),
     "edit_hc": ("heat_consumer", "controlled_mdot_kg_per_s", lambda v: v * 0.5),
+    "edit_q0": ("heat_consumer", "qext_w", lambda v: v * 0.0),       # demand switched off (and later restored)
 }
 OPS = list(PF.keys()) + ["user_opts", "user_iter", "user_reset"] + list(EDITS.keys()) + ["restore"]
 
 
 def applicable(netname, op):
-    if netname == "gas" and op in ("seq", "bidir", "heat_stored", "heat_saved", "edit_hc"):
+    if netname == "gas" and op in ("seq", "bidir", "heat_stored", "heat_saved", "edit_hc", "edit_q0"):
         return False
     if netname == "loop" and op in ("edit_sink",):
         return False
-    if netname != "loop" and op == "edit_hc":
+    if netname != "loop" and op in ("edit_hc", "edit_q0"):
         return False
     return True
 
